@@ -49,6 +49,8 @@ def gen_case(rng, idx, tier):
     src['variant'] = {'arr': [None, 'strided', 'fortran', 'f32', 'int', 'sparse'][
         int(rng.integers(6))]}
     src['two_process'] = (idx % 32 == 0)
+    if src['kind'] == 'dro' and rng.random() < 0.5:
+        src['variant']['dup_set'] = True
     return src
 
 
